@@ -86,9 +86,9 @@ PLAN = dict(
     drive=[dict(bin="c14", args=["c14"])],
     tv=[
         dict(glob="chunk-*.ndjson", module="Trace_Chunk", cfg="Trace_Chunk.cfg", stateful=True, reset_ops=["oneshot"],
-             corrupt=["batches", "out", "schema", "rows", "bs"], timeout=2400),
+             corrupt=["batches", "out", "schema", "rows", "bs"], timeout_quick=2400, timeout_thorough=9000),
         dict(glob="ipccall-*.ndjson", module="Trace_Ipc", cfg="Trace_Ipc.cfg", stateful=True, reset_ops=["ipcinput"],
-             corrupt=["consumed", "gave", "nb", "out"], timeout=2400),
+             corrupt=["consumed", "gave", "nb", "out"], timeout_quick=2400, timeout_thorough=9000),
     ],
     extra_steps=[csv_replay, faithful_avro_model],
     level_text="TLC exhaustively model-checks the chunk-independence theorem on the decoder models: the generic push-decoder "
